@@ -52,6 +52,10 @@ CLAIMS = {
   "text": "clear() + the processor's handling of the clear signal from an arbitrary quiescent state with <= 2 residents and optionally a buffered New item: nothing inserted before is retrievable, len and charged cost are zero, estimator zeroed, metrics counters zero, buffered insert discarded through on_evict; a key that had a TTL before the clear and is re-used with another TTL or none is only reclaimed by its NEW deadline.",
   "note": "clear() landing between policy.add and store.try_insert of an in-flight item (D6) is decided by c11_race_clear_in_new: a recorded known finding.",
   "design": "6/C11"},
+ "C12": {
+  "text": "NARROWED to the sequential slice: the real Cache::close() on an open cache in an arbitrary quiescent state returns Ok, marks cache and policy closed and sends exactly one clear signal and one stop signal to each worker; a second close() returns Ok and sends nothing (a second rendezvous send would block forever); afterwards get / get_mut return nothing and remove / clear / wait return Ok without effect, without queuing anything and without blocking. Async flavour: insert returns false, get / get_mut return nothing and clear has no effect once the closed flag is set (the closed branches of the c19_async_client_* harnesses).",
+  "note": "NOT decided (Kani cannot execute threads, tasks, crossbeam's blocking operations or parking): concurrent close() calls, operations racing a close, deadlock freedom on the rendezvous stop channels, that the two workers terminate after close() or when every handle is dropped; sync insert after close (try_insert_in's select! does not compile under Kani: by reading); AsyncCache::close() and wait() themselves (attempted: symbolic execution does not finish).",
+  "design": "6/C12, 11.14"},
  "C13": {
   "text": "Step lemmas decided by the solver for ALL inputs within bounds: from an arbitrary counter row / arbitrary 4-row sketch with arbitrary seeds, increment raises exactly the addressed counter by one saturating at 15 and never lowers another estimate, reset halves every counter, clear zeroes; CountMinSketch::new(n) for every n in [1,65536] yields rows that can hold mask+1 counters and a fresh sketch estimates 0 then 1; TinyLFU step: estimate after increment == min(estimate+1, 16) unless the aging reset fired, in which case w=0, doorkeeper empty and counters halved; TinyLFU::new(n) has aging period n for every n in [1,65536]; a batch of 4 keys applied to a cleared estimator gives estimate >= #occurrences, and a batch that straddles an aging reset loses no key. By induction over these steps: estimate >= min(16, #recorded since last reset).",
   "note": "Rows of 1 and 4 bytes in the step harnesses (the loops are width-generic; other widths are outside the bounded claim), doorkeeper of 64-512 bits, seeds arbitrary (RNG stubbed by kani::any). Histories are covered by induction over one step from an arbitrary state, not by exploring sequences.",
@@ -88,7 +92,6 @@ CLAIMS = {
 
 NOT_APPLICABLE = {
 
- "C12": "close() finality/idempotence/worker termination is entirely about blocking rendezvous sends between OS threads and thread exit; Kani cannot execute crossbeam-channel, parking or std::thread (compile-time ICE on TLS destructors), and no stretto logic can be separated from them (DESIGN.md 6/C12, 8)",
 }
 
 READY = set(open(os.path.join(V, "tools", "ready.txt")).read().split())
